@@ -84,6 +84,10 @@ func cmdList(args []string) int {
 	for _, c := range w.CS.All {
 		fmt.Printf("%v props=%v trusted=%v\n", c.Names, c.Props, c.Trusted)
 	}
+	sort.Strings(w.DupKeys)
+	for _, k := range w.DupKeys {
+		fmt.Printf("duplicate short key: %s\n", k)
+	}
 	return 0
 }
 
@@ -265,11 +269,22 @@ func cmdCheck(mode string, args []string) int {
 	var mu sync.Mutex
 	var wg sync.WaitGroup
 	vcs := map[string]*VC{}
+	var retried []string
 	for _, j := range jobs {
 		vc, err := w.translate(j.fn, j.c)
 		if err != nil {
-			results = append(results, Result{Fn: j.key, Name: "contract/wellformed", Status: "refuted", Src: "contract can be evaluated against the current code", Detail: err.Error(), Expect: "unsat"})
-			continue
+			// Translation is a deterministic function of the source and the
+			// contract: a real error repeats. One retry keeps a transient
+			// internal failure (seen once on a cold machine, never reproduced)
+			// from being reported as a violation; the first error is kept.
+			first := err
+			fmt.Fprintf(os.Stderr, "translate %s: %v (retrying once)\n", j.key, err)
+			vc, err = w.translate(j.fn, j.c)
+			if err != nil {
+				results = append(results, Result{Fn: j.key, Name: "contract/wellformed", Status: "refuted", Src: "contract can be evaluated against the current code", Detail: err.Error(), Expect: "unsat"})
+				continue
+			}
+			retried = append(retried, fmt.Sprintf("%s: translation retried after: %v", j.key, first))
 		}
 		results = append(results, Result{Fn: j.key, Name: "contract/wellformed", Status: "discharged", Src: "contract can be evaluated against the current code", Expect: "unsat", Solver: "translator"})
 		vcs[j.key] = vc
@@ -455,6 +470,7 @@ func cmdCheck(mode string, args []string) int {
 	unmod := map[string]int{}
 	trusted := map[string]bool{}
 	var notes []string
+	notes = append(notes, retried...)
 	for _, j := range jobs {
 		fuc = append(fuc, j.key)
 		if vc := vcs[j.key]; vc != nil {
